@@ -66,6 +66,8 @@ def mutants(prog):
         ("norm: membership test matches 1", "deepali.losses.base", "NormalizedPairwiseImageLoss.__init__", "if norm is True:\n        norm = None\n    if norm is None:", "if norm in (None, True):", "T16.module-norm"),
         ("norm: True and False exchanged", "deepali.losses.base", "NormalizedPairwiseImageLoss.__init__", "if norm is True:", "if norm is False:", "T16.module-norm"),
         ("ncc: means over the whole batch", L, "ncc_loss", "source_mean = source.mean(dim=1, keepdim=True)", "source_mean = source.mean()", "T16.invariance"),
+        ("mi: lower histogram bound from the input only", L, "mi_loss", "vmin = torch.min(input.min(), target.min()).item()", "vmin = input.min().item()", "T16.mi-symmetry"),
+        ("mi: target marginal over the wrong axis", L, "mi_loss", "p_target = p_joint.sum(dim=1)", "p_target = p_joint.sum(dim=2)", "T16."),
     ]
     for name, mod, fn, old, new, expect in specs:
         ov = source_sub(prog, mod, fn, old, new)
